@@ -150,6 +150,67 @@ def grid(fn, quick, rng):
     return out
 
 
+
+# model id -> (status, theorems of coq/Props/C17.v).  full = refinement for all arguments of the documented domain;
+# refuted = the real code (and its faithful model) violates the doc comment, with what does hold (partial/bounded)
+COVER = {
+    "Leere_Liste": ("full", ["leere_spec"]), "Hinzufügen_Liste": ("full", ["hinzufuegen_spec"]), "Hinzufügen_Liste_Liste": ("full", ["hinzufuegen_liste_spec"]),
+    "Einfügen_Liste": ("full", ["einfuegen_spec", "einfuegen_err"]), "Einfügen_Bereich_Liste": ("full", ["einfuegen_bereich_spec", "einfuegen_bereich_err"]),
+    "Voranstellen_Liste": ("full", ["voranstellen_spec"]), "Voranstellen_Liste_Liste": ("full", ["voranstellen_liste_spec"]),
+    "Lösche_Element": ("refuted+partial", ["loesche_element_refuted", "loesche_element_partial"]),
+    "Lösche_Bereich": ("refuted+partial", ["loesche_bereich_refuted", "loesche_bereich_partial", "loesche_bereich_crossed"]),
+    "Füllen_Liste": ("full", ["fuellen_spec"]), "Index_Von_Element": ("full", ["index_von_spec", "index_von_value_spec"]),
+    "Enthält_Wert": ("full", ["enthaelt_spec", "enthaelt_In"]), "Enthält_Wert_nicht": ("full", ["enthaelt_spec", "enthaelt_In"]),
+    "Ist_Leer_Liste": ("full", ["ist_leer_spec"]), "Erste_N_Elemente_Liste": ("full", ["erste_n_spec", "erste_n_is_operator"]),
+    "Letzten_N_Elemente_Liste": ("full", ["letzten_n_spec"]), "Liste_Spiegeln": ("full", ["spiegeln_spec", "spiegeln_value_spec"]),
+    "Summe_Liste": ("full", ["summe_spec", "summe_exact"]), "Produkt_Liste": ("full", ["produkt_spec", "produkt_leer"]),
+    "Elementweise_Summe": ("full", ["elementweise_summe_spec"]), "Elementweise_Differenz": ("full", ["elementweise_differenz_spec"]),
+    "Elementweise_Produkt": ("full", ["elementweise_produkt_spec"]), "Aneinandergehängt_Buchstabe": ("full", ["aneinandergehaengt_spec"]),
+    "Verketten_Text_Liste": ("full", ["verketten_spec"]), "Elementweise_Verketten_Text": ("full", ["elw_verketten_spec"]),
+    "Aufsteigende_Zahlen": ("full", ["aufsteigende_spec"]), "Absteigende_Zahlen": ("full", ["absteigende_spec"]),
+    "Erster_Buchstabe": ("full", ["erster_buchstabe_spec"]), "Nter_Buchstabe": ("full", ["nter_buchstabe_spec"]), "Letzter_Buchstabe": ("full", ["letzter_buchstabe_spec"]),
+    "Entferne_Anzahl_Vorne": ("full", ["entferne_vorne_spec"]), "Entferne_Anzahl_Vorne_Mutierend": ("full", ["entferne_vorne_spec"]),
+    "Entferne_Anzahl_Hinten": ("full", ["entferne_hinten_spec"]), "Entferne_Anzahl_Hinten_Mutierend": ("full", ["entferne_hinten_spec"]),
+    "Trim_Anfang": ("full", ["trim_anfang_spec"]), "Trim_Anfang_Wert": ("full", ["trim_anfang_spec"]),
+    "Trim_Ende": ("full", ["trim_ende_spec"]), "Trim_Ende_Wert": ("full", ["trim_ende_spec"]),
+    "Trim": ("refuted+bounded", ["trim_refuted", "trim_bounded"]), "Trim_Wert": ("refuted+bounded", ["trim_refuted", "trim_bounded"]),
+    "Text_Enthält_Buchstabe": ("full", ["text_enthaelt_buchstabe_In"]), "Text_Anzahl_Buchstabe": ("full", ["text_anzahl_buchstabe_spec"]),
+    "Text_Enthält_Text": ("full", ["text_enthaelt_text_spec", "occurs_iff"]), "Text_Anzahl_Text": ("full", ["text_anzahl_text_spec"]),
+    "Text_Anzahl_Text_Nicht_Überlappend": ("refuted+bounded", ["nicht_ueberlappend_refuted", "nicht_ueberlappend_bounded"]),
+    "Beginnt_Mit_Buchstabe": ("full", ["beginnt_mit_buchstabe_spec"]), "Beginnt_Mit_Text": ("full", ["beginnt_mit_text_spec", "prefix_iff"]),
+    "Endet_Mit_Buchstabe": ("full", ["endet_mit_buchstabe_spec"]), "Endet_Mit_Text": ("full", ["endet_mit_text_spec", "suffix_iff"]),
+    "Text_Leeren": ("full", ["text_leeren_spec"]), "Text_An_Text_Fügen": ("full", ["text_an_text_spec"]), "Buchstabe_An_Text_Fügen": ("full", ["buchstabe_an_text_spec"]),
+    "Text_In_Text_Einfügen": ("refuted+partial", ["text_einfuegen_refuted", "text_einfuegen_partial"]),
+    "Buchstabe_In_Text_Einfügen": ("refuted+partial", ["buchstabe_einfuegen_refuted", "buchstabe_einfuegen_partial"]),
+    "Text_Vor_Text_Stellen": ("full", ["text_vor_text_spec"]), "Buchstabe_Vor_Text_Stellen": ("full", ["buchstabe_vor_text_spec"]),
+    "Lösche_Text": ("refuted+partial", ["loesche_text_refuted", "loesche_text_partial"]),
+    "Lösche_Text_Bereich": ("refuted+partial", ["loesche_text_bereich_refuted", "loesche_text_bereich_partial"]),
+    "Fülle_Text": ("full at code-point level (the executable leaves an ill-formed text when a character shrinks: C12)", ["fuelle_text_spec"]),
+    "Buchstaben_Text_BuchstabenListe": ("full", ["buchstaben_liste_spec"]), "Buchstaben_Text_TextListe": ("full", ["buchstaben_textliste_spec"]),
+    "Text_Index_Von_Buchstabe": ("full", ["text_index_von_buchstabe_spec"]),
+    "Text_Index_Von_Text": ("refuted+bounded", ["text_index_von_text_refuted", "text_index_von_text_bounded"]),
+    "Ist_Text_Leer": ("full", ["ist_text_leer_spec"]),
+    "Großschreiben_Wert": ("full", ["grossschreiben_text_spec"]), "Großschreiben": ("full", ["grossschreiben_text_spec"]),
+    "Kleinschreiben_Wert": ("full", ["kleinschreiben_text_spec"]), "Kleinschreiben": ("full", ["kleinschreiben_text_spec"]),
+    "Polster_Links": ("full", ["polster_links_spec"]), "Polster_Rechts": ("full", ["polster_rechts_spec"]),
+    "Spalte": ("refuted+bounded", ["spalte_refuted", "spalte_bounded"]), "Spalte_Text": ("refuted+bounded", ["spalte_text_refuted", "spalte_text_bounded"]),
+    "Finde_Subtext": ("refuted+bounded", ["finde_subtext_refuted_gleichlang", "finde_subtext_refuted_ende", "finde_subtext_bounded"]),
+    "Verbinden_Text": ("full", ["verbinden_text_spec"]), "Verbinden_Buchstabe": ("full", ["verbinden_buchstabe_spec"]),
+    "Hamming_Distanz": ("full", ["hamming_spec", "hamming_ungleich"]),
+    "Vergleiche_Text": ("refuted+partial", ["vergleiche_refuted", "vergleiche_partial"]),
+    "Spalten_Spaltmenge_Text": ("bounded", ["spaltmenge_bounded"]), "Spalten_SpaltmengeText_Text": ("bounded", ["spaltmenge_bounded"]), "Text_Worte": ("bounded", ["spaltmenge_bounded"]),
+    "Tausche": ("full", ["tausche_spec"]), "Quicksort_Ref": ("full", ["quicksort_ref_spec"]), "Quicksort": ("full", ["quicksort_spec"]),
+    "Max": ("full", ["max_spec"]), "Max3": ("full", ["max3_spec"]), "Min": ("full", ["min_spec"]), "Min3": ("full", ["min3_spec"]),
+    "Clamp": ("full", ["clamp_spec"]), "Sign": ("full", ["sign_spec"]),
+    "Größter_Gemeinsamer_Teiler": ("refuted+partial", ["ggt_refuted", "ggt_spec"]), "Kleinster_Gemeinsamer_Teiler": ("refuted+partial", ["kgv_refuted", "kgv_partial"]),
+    "Ist_Teilbar": ("full", ["ist_teilbar_spec"]), "Gerade_Zahl": ("full", ["gerade_spec"]), "Fakultät": ("full (0..20)", ["fakultaet_spec"]),
+    "Teilerzerlegung": ("full", ["teiler_spec", "teiler_sorted_desc"]),
+    "Floor": ("refuted+partial", ["floor_refuted", "floor_partial", "floor_integers"]), "Ceil": ("refuted+partial", ["ceil_refuted", "ceil_partial"]), "Trunc": ("full", ["trunc_spec"]),
+    "Höchste_ListeZ": ("full", ["hoechste_spec"]), "Kleinste_ListeZ": ("full", ["kleinste_spec"]),
+    "Mindestens_Liste": ("refuted+partial", ["mindestens_refuted", "mindestens_partial"]), "Höchstens_Liste": ("refuted+partial", ["hoechstens_refuted", "hoechstens_partial"]),
+    "Zwischen_Liste": ("full", ["zwischen_spec"]), "Absolute_Häufigkeit": ("full", ["absolute_haeufigkeit_spec"]),
+}
+
 # which Z parameters are elements (not indices)
 ELEM_PARAM = {"Hinzufügen_Liste": [1], "Einfügen_Liste": [2], "Voranstellen_Liste": [1], "Füllen_Liste": [1], "Index_Von_Element": [1], "Enthält_Wert": [1],
               "Enthält_Wert_nicht": [1]}
@@ -188,12 +249,16 @@ def shape(fn, args):
             parts.append("n" + sz(n))
         elif k == "Z" and ci is not None and i not in fn.get("elem", ()):
             parts.append("i" + rel(a, n))
-        elif k in ("Z", "K"):
+        elif k == "K":
+            parts.append("zero" if a == 0 else ("neg" if a < 0 else "pos") + ("-int" if a % 4 == 0 else "-frac"))
+        elif k == "Z":
             parts.append("neg" if a < 0 else "zero" if a == 0 else "pos")
         elif k in ("T", "ZL", "XL", "TL", "BL", "KL", "YL"):
             parts.append("m" + sz(len(a)))
         else:
             parts.append(k.lower())
+    if fn.get("tag"):
+        parts.append(fn["tag"](*args))
     return ",".join(parts)
 
 
@@ -320,7 +385,7 @@ def m_dec(kind, s):
     if kind == "K":
         return D.kfmt(ints[0] / 4)
     if kind == "Kfrac":
-        return D.kfmt(ints[0] / ints[1]) if ints[1] != 0 else "K?"
+        return D.kfmt(ints[0] / ints[1]) if ints[1] != 0 else "K?Keine Zahl (NaN)"
     if kind == "B":
         return "<" + D.esc("".join(chr(c) for c in ints)) + ">"
     if kind == "T":
@@ -349,7 +414,7 @@ def model_run(model, fn, cases):
     outs = p.stdout.split("\n")
     res = []
     for c, o in zip(cases, outs):
-        if o == "?" or o == "":
+        if o == "?" or o == "" or o == "U":      # not modelled / outside the model (Undef): not compared
             res.append(None)
         elif o == "E":
             res.append(("err",))
@@ -382,7 +447,13 @@ def ddp_function_text(src, name):
     m = re.search(r"^Die\s+(?:(?:öffentliche|oeffentliche|generische)\s+)*Funktion\s+" + re.escape(name) + r"\b", src, re.M)
     if not m:
         return None
-    rest = src[m.start():]
+    # the doc comment `[ ... ]` directly above the declaration is the specification: it belongs to the hashed text
+    start = m.start()
+    head = src[:start].rstrip()
+    if head.endswith("]"):
+        start = head.rfind("[")
+    rest = src[start:]
+    m = re.search(r"^Die\s+(?:(?:öffentliche|oeffentliche|generische)\s+)*Funktion\s+" + re.escape(name) + r"\b", rest, re.M)
     m2 = re.search(r"^\s*[Uu]nd (?:kann so benutzt werden|überlädt)[^\n]*\n((?:[ \t]+\"[^\n]*\n?|[ \t]*\n(?=[ \t]+\"))*)", rest, re.M)
     end = m2.end() if m2 else len(rest)
     return rest[:end].strip()
@@ -407,11 +478,17 @@ def c_function_text(src, name):
 
 C_PRIMS = {"lists.c": ["grow_if_needed", "efficient_list_append", "efficient_list_prepend", "efficient_list_append_list", "efficient_list_prepend_list", "CLAMP",
                        "efficient_list_delete_range", "efficient_list_insert", "efficient_list_insert_range", "Aneinandergehaengt_Buchstabe_Ref"],
-           "strings.c": ["Text_Zu_ByteListe", "ByteListe_Zu_Text"]}
+           "strings.c": ["Text_Zu_ByteListe", "ByteListe_Zu_Text"],
+           "text_iterator.c": ["TextIterator_von_Text", "TextIterator_Zuende", "TextIterator_Buchstabe", "TextIterator_Naechster"]}
 # private helpers the covered functions are built from
 DDP_HELPERS = {"Sortierung": ["drei_werte_sortieren", "vom_stack_nehmen", "auf_den_stack_legen", "quicksort_iter_impl", "quicksort_iter"],
                "Zeichen": ["Ist_Klein", "Ist_Deutscher_Buchstabe", "Großgeschrieben", "Kleingeschrieben"],
-               "Zahlen": ["MinZahl", "MaxZahl"], "Mathe": []}
+               "Zahlen": ["MinZahl", "MaxZahl"], "Mathe": [],
+               "TextIterator": ["TextIterator_Index", "TextIterator_als_Zahl", "TextIterator_Plus"]}
+
+
+DDP_GLOBALS = {"Sortierung": [("stack", r"^Die Zahlen Liste stack ist[^\n]*"), ("stack_top", r"^Die Zahl stack_top ist[^\n]*")],
+               "Texte": [("leerzeichen", r"^Die Buchstaben Liste leerzeichen ist[^.]*\.")]}
 
 
 def source_hashes(repo):
@@ -434,12 +511,101 @@ def source_hashes(repo):
             if t is None and any(nm in C_PRIMS[c] for c in C_PRIMS):
                 continue
             hs["%s.ddp:%s" % (mod, nm)] = hashlib.sha256(t.encode()).hexdigest()[:16] if t is not None else "MISSING"
+    for mod, pats in DDP_GLOBALS.items():
+        text = src("lib/stdlib/Duden/%s.ddp" % mod)
+        for nm, pat in pats:
+            m = re.search(pat, text, re.M | re.S)
+            hs["%s.ddp:global %s" % (mod, nm)] = hashlib.sha256(m.group(0).encode()).hexdigest()[:16] if m else "MISSING"
     for cf, names in C_PRIMS.items():
         text = src("lib/stdlib/source/DDP/" + cf)
         for nm in names:
             t = c_function_text(text, nm)
             hs["%s:%s" % (cf, nm)] = hashlib.sha256(t.encode()).hexdigest()[:16] if t is not None else "MISSING"
     return hs
+
+
+
+CTX = {}
+
+
+def process_fn(fi):
+    """worker (forked): everything about one function entry; returns picklable summaries only"""
+    fn = S.FNS[fi]
+    b, quick, seed, only, corpus = CTX["b"], CTX["quick"], CTX["seed"], CTX["only"], CTX["corpus"]
+    if only:
+        cs = [tuple(o[2]) for o in only if o[0] == fn["id"]]
+    else:
+        rng = __import__("random").Random("%d/%s" % (seed, fn["id"]))
+        cs = [tuple(c[2]) for c in corpus if c[0] == fn["id"]] + grid(fn, quick, rng)
+    sps = []
+    for c in cs:
+        try:
+            sps.append(fn["spec"](*c))
+        except S.Err:
+            sps.append(("err",))
+    ms = model_run(CTX["model"], fn, cs) if CTX["have_model"] else [None] * len(cs)
+    # every cell predicted to end in a Laufzeitfehler costs one fork of the driver: keep a bounded number per
+    # argument shape (more of them in the thorough tier); the same for cells only the model speaks about
+    cap = 2 if quick else 30
+    seen = {}
+    keep = []
+    for c, sp, mo in zip(cs, sps, ms):
+        pred_err = (sp is not None and sp[0] == "err") or (mo is not None and mo[0] == "err") or (sp is None and mo is None)
+        if pred_err and not only:
+            k = shape(fn, c)
+            seen[k] = seen.get(k, 0) + 1
+            if seen[k] > cap:
+                continue
+        keep.append((c, sp, mo))
+    st = dict(cases=0, specified=0, unspecified=0, forms=[], model_compared=0)
+    res = dict(id=fn["id"], model=fn["model"], st=st, n_spec=0, n_unspec=0, n_err=0, spawns=0, count=0, distinct=set(), gap=0, mismatch=[], best={})
+    best = res["best"]
+    for (forms, o, base, nr) in CTX["by_fn"][fn["id"]]:
+        cases = keep
+        if o != 0 and quick and len(cases) > 1500:
+            cases = cases[::4]
+        for v in forms:
+            st["forms"].append("%s/O%d" % (v, o))
+        obs_all, sp_n = run_cases(b, base, nr, fn, forms, [c[0] for c in cases])
+        res["spawns"] += sp_n
+        for (c, sp, mo), obs in zip(cases, obs_all):
+            if sp is not None:
+                res["distinct"].add(hashlib.sha1(repr((fn["id"], c)).encode()).digest()[:8])
+            if mo is None:
+                res["gap"] += 1
+            for v, ob in zip(forms, obs):
+                if ob[0] == "skipped":
+                    st["skipped"] = st.get("skipped", 0) + 1
+                    continue
+                st["cases"] += 1
+                res["count"] += 1
+                if sp is None:
+                    res["n_unspec"] += 1
+                    st["unspecified"] += 1
+                else:
+                    res["n_spec"] += 1
+                    st["specified"] += 1
+                    if sp[0] == "err":
+                        res["n_err"] += 1
+                bad = judge(fn, sp, ob)
+                if bad:
+                    key = "fn=%s form=%s shape=%s %s" % (fn["id"], v, shape(fn, c), bad)
+                    size = sum(len(D.tok(k, a)) for k, a in zip(fn["params"], c))
+                    if key not in best or size < best[key][0]:
+                        toks = [D.tok(k, a) for k, a in zip(fn["params"], c)]
+                        best[key] = (size, "%s %s called with %s: specification %s, executable %s" % (fn["names"][v], fn["tmpl"], list(c), _show_sp(fn, sp), _show_ob(ob)),
+                                     dict(function=fn["id"], form=v, args=list(c), opt=o, ddp_function=fn["names"][v], module=fn["module"], argv=toks,
+                                          expected=_show_sp(fn, sp), observed=_show_ob(ob), source=D.program([(fn, [v])]),
+                                          how="kddp kompiliere prog.ddp -O %d (source above, linked with harness/c/c17shim.c); ./prog 0 %s" % (o, " ".join("'%s'" % t for t in toks))))
+                # model vs implementation (observables only)
+                if mo is not None:
+                    st["model_compared"] += 1
+                    same = (mo[0] == ob[0] == "err") or (mo[0] == "ok" and ob[0] == "ok" and mo[1] == norm_obs(fn, ob[1]))
+                    # a cell where the executable violates the specification is reported as such (above); the
+                    # correspondence obligation concerns the cells where it satisfies it or where the documentation is silent
+                    if not same and not bad and len(res["mismatch"]) < 5:
+                        res["mismatch"].append((fn["id"], v, o, list(c), mo, ob, bad))
+    return res
 
 
 # ------------------------------------------------------------------------------------------------
@@ -454,8 +620,7 @@ def main():
         "the specification oracle (checks/c17_spec.py) is my reading of the German doc comments; where a comment is silent the case is only compared with the model",
         "driver programs decode their arguments with built-ins only and reach the executable through the command line (UTF-8 argv, Text -> Zahl cast of the runtime)",
     ]
-    if not os.environ.get('C17_NOCOQ'):
-        ck.coq()
+    ck.coq()
     ok, lg = b.ensure_native()
     if not ok:
         ck.violation("build", "kddp/runtime do not build from the current tree", dict(log=lg[-3000:]), no_input=True)
@@ -540,105 +705,48 @@ def main():
                 progs.append((fn, forms, o, base, nr))
     log("[c17] %d driver programs compiled for %d function entries (%.0fs)" % (len(jobs), len(progs), __import__("time").time() - ck.t0))
 
-    # ---- cases: grid -> specification -> model -> thinning of the error-raising cells ---------------
+    # ---- cases: grid -> specification -> model -> thinning -> run -> judgement, one worker process per function ----
     model = vlib.model_bin("c17")
     have_model = os.path.exists(model)
     if not have_model:
         ck.broken_obligation("extracted model driver extract/_build/c17 is missing (make -C /verif setup)", "")
-
-    def prepare(fn):
-        if only:
-            cs = [tuple(o[2]) for o in only if o[0] == fn["id"]]
-        else:
-            rng = __import__("random").Random("%d/%s" % (ck.seed, fn["id"]))
-            cs = [tuple(c[2]) for c in corpus if c[0] == fn["id"]] + grid(fn, ck.quick, rng)
-        sps = []
-        for c in cs:
-            try:
-                sps.append(fn["spec"](*c))
-            except S.Err:
-                sps.append(("err",))
-        ms = model_run(model, fn, cs) if have_model else [None] * len(cs)
-        # every cell predicted to end in a Laufzeitfehler costs one fork of the driver: keep a bounded number per
-        # argument shape (all of them in the thorough tier up to a larger bound)
-        cap = 2 if ck.quick else 30
-        seen = {}
-        keep = []
-        for c, sp, mo in zip(cs, sps, ms):
-            pred_err = (sp is not None and sp[0] == "err") or (mo is not None and mo[0] == "err") or (sp is None and mo is None)
-            if pred_err and not only:
-                k = shape(fn, c)
-                seen[k] = seen.get(k, 0) + 1
-                if seen[k] > cap:
-                    continue
-            keep.append((c, sp, mo))
-        return keep
-    prepared = dict(zip([fn["id"] for fn in S.FNS], vlib.pmap(prepare, S.FNS)))
-    log("[c17] grids, specification and model answers (%.0fs)" % (__import__("time").time() - ck.t0))
-    work = []
+    by_fn = {}
     for (fn, forms, o, base, nr) in progs:
-        cases = prepared[fn["id"]]
-        if o != 0 and ck.quick and len(cases) > 1500:
-            cases = cases[::4]
-        step = max(200, min(BATCH, (len(cases) + 3) // 4))
-        for a in range(0, len(cases), step):
-            work.append((fn, forms, o, base, nr, cases[a:a + step]))
-
-    def run_one(w):
-        fn, forms, o, base, nr, cases = w
-        return run_cases(b, base, nr, fn, forms, [c[0] for c in cases])
-    results = vlib.pmap(run_one, work)
-    log("[c17] %d work chunks run (%.0fs)" % (len(work), __import__("time").time() - ck.t0))
-
-    # ---- judgement ---------------------------------------------------------------------------------
+        by_fn.setdefault(fn["id"], []).append((forms, o, base, nr))
+    CTX.update(b=b, quick=ck.quick, seed=ck.seed, only=only, corpus=corpus, model=model, have_model=have_model, by_fn=by_fn)
+    order = sorted(range(len(S.FNS)), key=lambda i: -len(S.FNS[i]["params"]) * 10 - len(S.FNS[i]["names"]))
+    order = [i for i in order if S.FNS[i]["id"] in by_fn]
+    import multiprocessing
+    from concurrent.futures import ProcessPoolExecutor
+    with ProcessPoolExecutor(max_workers=vlib.NCPU, mp_context=multiprocessing.get_context("fork")) as ex:
+        outs = list(ex.map(process_fn, order))
+    log("[c17] %d functions run and judged (%.0fs)" % (len(outs), __import__("time").time() - ck.t0))
     per_fn = {}
-    n_spec = n_unspec = n_err_expected = 0
-    spawns = 0
+    n_spec = n_unspec = n_err_expected = spawns = 0
     model_gap = {}
     model_mismatch = []
-    best = {}      # violation key -> (size, what, replay)
-    for w, (obs_all, sp_n) in zip(work, results):
-        fn, forms, o, base, nr, cases = w
-        spawns += sp_n
-        st = per_fn.setdefault(fn["id"], dict(cases=0, specified=0, unspecified=0, forms=set(), model_compared=0))
-        for v in forms:
-            st["forms"].add("%s/O%d" % (v, o))
-        for (c, sp, mo), obs in zip(cases, obs_all):
-            if sp is not None:
-                ck.nontrivial((fn["id"], c))
-            if mo is None:
-                model_gap[fn["model"]] = model_gap.get(fn["model"], 0) + 1
-            for v, ob in zip(forms, obs):
-                if ob[0] == "skipped":
-                    st["skipped"] = st.get("skipped", 0) + 1
-                    continue
-                st["cases"] += 1
-                ck.count()
-                if sp is None:
-                    n_unspec += 1
-                    st["unspecified"] += 1
-                else:
-                    n_spec += 1
-                    st["specified"] += 1
-                    if sp[0] == "err":
-                        n_err_expected += 1
-                bad = judge(fn, sp, ob)
-                if bad:
-                    key = "fn=%s form=%s shape=%s %s" % (fn["id"], v, shape(fn, c), bad)
-                    size = sum(len(D.tok(k, a)) for k, a in zip(fn["params"], c))
-                    if key not in best or size < best[key][0]:
-                        toks = [D.tok(k, a) for k, a in zip(fn["params"], c)]
-                        best[key] = (size, "%s %s called with %s: specification %s, executable %s" % (fn["names"][v], fn["tmpl"], list(c), _show_sp(fn, sp), _show_ob(ob)),
-                                     dict(function=fn["id"], form=v, args=list(c), opt=o, ddp_function=fn["names"][v], module=fn["module"], argv=toks,
-                                          expected=_show_sp(fn, sp), observed=_show_ob(ob), source=D.program([(fn, [v])]),
-                                          how="kddp kompiliere prog.ddp -O %d (source above, linked with harness/c/c17shim.c); ./prog 0 %s" % (o, " ".join("'%s'" % t for t in toks))))
-                # model vs implementation (observables only)
-                if mo is not None:
-                    st["model_compared"] += 1
-                    same = (mo[0] == ob[0] == "err") or (mo[0] == "ok" and ob[0] == "ok" and mo[1] == norm_obs(fn, ob[1]))
-                    if not same and len(model_mismatch) < 20:
-                        model_mismatch.append((fn["id"], v, o, list(c), mo, ob, bad))
+    best = {}
+    for r in outs:
+        per_fn[r["id"]] = r["st"]
+        n_spec += r["n_spec"]
+        n_unspec += r["n_unspec"]
+        n_err_expected += r["n_err"]
+        spawns += r["spawns"]
+        ck.count(r["count"])
+        ck._distinct.update(r["distinct"])
+        if r["gap"]:
+            model_gap[r["model"]] = model_gap.get(r["model"], 0) + r["gap"]
+        model_mismatch.extend(r["mismatch"])
+        best.update(r["best"])
+    model_mismatch = model_mismatch[:20]
+    # report order: one key per function first (vlib prints the first ten), then the remaining ones
+    rank = {}
+    ordered = []
     for key in sorted(best):
+        f = best[key][2]["function"]
+        rank[f] = rank.get(f, 0) + 1
+        ordered.append((rank[f], key))
+    for _, key in sorted(ordered):
         size, what, rp = best[key]
         if ck.violation(key, what, rp):
             # persist the minimised failure
@@ -666,11 +774,13 @@ def main():
     uncovered = {mod: [n for n in names if n not in reached] for mod, names in all_public.items()}
     ck.cov.update(dict(
         violation_keys=sorted(best)[:400],
+        model_mismatches=[dict(function=m[0], form=m[1], opt=m[2], args=m[3], model=str(m[4]), executable=str(m[5])) for m in model_mismatch],
         programs=len(jobs), process_spawns=spawns, functions_exercised=len(reached), function_entries=len(S.FNS),
         specified_cases=n_spec, unspecified_cases_model_only=n_unspec, expected_laufzeitfehler=n_err_expected,
-        covered_by_proof_and_grid=covered_models, covered_by_specification_oracle_only=spec_only,
+        covered_by_proof_and_grid={m: dict(status=COVER.get(m, ("model only", []))[0], theorems=["C17_" + t for t in COVER.get(m, ("", []))[1]]) for m in covered_models},
+        covered_by_specification_oracle_only=spec_only,
         uncovered_public_functions=uncovered, model_gaps=model_gap,
-        per_function={k: dict(v, forms=sorted(v["forms"])) for k, v in per_fn.items()},
+        per_function=per_fn,
         exhaustive=True,
         rule="per function: every list of length <= 4 over {0,1,2} (Text lists: length <= 3 over {'', 'a', 'ä'}) x every index/count in -1..len+2 x element "
              "values; every text of length <= 4 over {a, ä, €, 😀} x every needle of length <= %d / separator letter; sorting: every list of length <= %d over 3 "
@@ -679,7 +789,10 @@ def main():
     ck.sample(dict(function="Einfügen_Liste", args=[[0, 1], 3, 5], expected="[0,1,5]"))
     ck.sample(dict(function="Text_Index_Von_Text", args=["xxxa", "ab"], expected=-1))
     ck.sample(dict(function="Quicksort", args=[[2, 0, 1, 0]], expected="[0,0,1,2] and the argument unchanged"))
-    ck.finish()
+    ck.finish(explanation="Every covered Duden function is transcribed into Gallina (coq/Lib/*Fns.v) and proved against the Coq list library "
+              "(coq/Props/C17.v: _spec full, _refuted + _partial/_bounded where the real code violates its doc comment). One compiled driver per "
+              "function group calls the real function on the whole grid and prints result and arguments afterwards; each observation is judged by "
+              "the doc-comment oracle (c17_spec.py) and compared with the extracted model; source hashes of all covered bodies guard the transcription.")
 
 
 def _show_sp(fn, sp):
